@@ -85,6 +85,14 @@ def _models(tier):
       feature_configs=[_fc('a', monotonicity=-1, nk=3, pwl_calibration_always_monotonic=True), _fc('b', nk=nk, pwl_calibration_always_monotonic=True)],
       use_bias=True, output_initialization=[0.0, 1.0])),
             [('a', 'decreasing')], None, dict(a=[0.0, 1.0, 2.0])))
+  M.append(('calibrated-linear-missing-zero-bound', lambda: P.CalibratedLinear(C.CalibratedLinearConfig(
+      feature_configs=[_fc('a', monotonicity='increasing', nk=nk, default_value=-1.0), _fc('b', nk=nk, default_value=5.0)],
+      use_bias=False, output_min=0.0, output_max=1.0, output_initialization=[0.0, 1.0])),
+            [('a', 'increasing')], (0.0, 1.0), {}, dict(a=-1.0)))
+  M.append(('calibrated-lattice-missing-off-zero', lambda: P.CalibratedLattice(C.CalibratedLatticeConfig(
+      feature_configs=[_fc('a', monotonicity='increasing', nk=nk, default_value=-1.0), _fc('b', nk=nk)],
+      output_min=1.0, output_max=2.0, output_initialization=[1.0, 2.0])),
+            [('a', 'increasing')], (1.0, 2.0), {}, dict(a=-1.0)))
   M.append(('calibrated-lattice-output-calibration', lambda: P.CalibratedLattice(C.CalibratedLatticeConfig(
       feature_configs=[_fc('a', monotonicity='increasing', nk=nk), _fc('b', nk=nk)], output_min=0.0, output_max=1.0, output_calibration=True,
       output_calibration_num_keypoints=2, output_initialization=[0.0, 1.0])),
@@ -186,13 +194,8 @@ def constraint_predicates(var, val):
     q = dict(pairs=[list(t) for t in (con.monotonicities or [])], omin=con.output_min, omax=con.output_max)
     return specs.holds(c06.cat_cons(val, q)), name
   if name == 'NaiveBoundsConstraints':
-    cons = []
-    for v in val.reshape(-1):
-      if con.lower_bound is not None:
-        cons.append(sym.GE(v, Fraction(con.lower_bound)))
-      if con.upper_bound is not None:
-        cons.append(sym.LE(v, Fraction(con.upper_bound)))
-    return cons, name
+    # cheap (two clips): the real constraint graph is run on a raw symbolic tensor instead of trusting its attributes
+    return None, name
   if name == 'KroneckerFactoredLatticeConstraints':
     # established facts (C07): weights >= 0 when monotone / one-sided bounds, direction*weights non-decreasing along monotone dims;
     # handled by running the real constraint instead (see below)
@@ -281,6 +284,10 @@ def case_model(**p):
         (val,) = Traced(_apply(v.constraint), [tf.TensorSpec(list(v.shape), tf.float32)]).sym_run(s)
         vv[v.ref()] = val
         scale_val[v.name.rsplit('/', 1)[0]] = (v, val)
+    for v, s in post:
+      if type(v.constraint).__name__ == 'NaiveBoundsConstraints':
+        (val,) = Traced(_apply(v.constraint), [tf.TensorSpec(list(v.shape), tf.float32)]).sym_run(s)
+        vv[v.ref()] = val
     for v, s in post:
       if type(v.constraint).__name__ == 'KroneckerFactoredLatticeConstraints':
         sv = v.constraint.scale
@@ -425,12 +432,12 @@ def replay(r):
   moved = 0.0
   # variables whose constraint has no predicate form (KFL scale, then KFL kernel) carry the raw pre-projection witness: the
   # real constraints are applied to them once, in that order, exactly as one optimizer step would
-  for kind_ in ('ScaleConstraints', 'KroneckerFactoredLatticeConstraints'):
+  for kind_ in ('NaiveBoundsConstraints', 'ScaleConstraints', 'KroneckerFactoredLatticeConstraints'):
     for v in fn.variables:
       if v.constraint is not None and type(v.constraint).__name__ == kind_:
         v.assign(v.constraint(v))
   for v in fn.variables:
-    if v.constraint is not None and type(v.constraint).__name__ not in ('ScaleConstraints', 'KroneckerFactoredLatticeConstraints'):
+    if v.constraint is not None and type(v.constraint).__name__ not in ('NaiveBoundsConstraints', 'ScaleConstraints', 'KroneckerFactoredLatticeConstraints'):
       new = v.constraint(v)
       moved = max(moved, float(tf.reduce_max(tf.abs(new - v))))
   out = model(xs).numpy().astype(np.float64).reshape(2)
